@@ -612,7 +612,8 @@ def list_by_int(left, right, engine):
         yaql> [1, 2] * 2
         [1, 2, 1, 2]
     """
-    utils.limit_memory_usage(engine, (-right + 1, []), (right, left))
+    utils.limit_memory_usage(
+        engine, (-right + 1, left[:0]), (right, left))
     return left * right
 
 
